@@ -60,6 +60,6 @@ def mutants(repo):
         Mutant('list-evaluates-scalars-directly', lambda r: in_func(r, 'ConfigList.ayns.on_evaluate_impl', "ctx.evaluate_node(value, path+[key])", "(value.ayns.on_evaluate(path+[key], ctx) if not isinstance(value, ComposedNode) else ctx.evaluate_node(value, path+[key]))"), ['C10.R2', 'C10.R4']),
         Mutant('cache-not-cleared-after', lambda r: in_func(r, 'EvalContext.evaluate', "        finally:\n            self._eval_cache.clear()\n            self._eval_cache_id.clear()", "        finally:\n            self._eval_cache.clear()"), ['C10.R3']),
         Mutant('dict-eval-values-twice', lambda r: in_func(r, 'ConfigDict.ayns.on_evaluate_impl', "for key, value in self.ayns.named_children())", "for key, value in list(self.ayns.named_children()) * 1)"), ['C10.R4']),
-        Mutant('cache-hit-before-safety-test', lambda r: in_func(r, 'EvalContext.get_node', "if self._require_all_safe and str(path) in self._eval_cache_unsafe:", "if False:"), ['C10.R5']),
+        Mutant('cache-hit-before-safety-test', lambda r: in_func(r, 'EvalContext.get_node', "            if self._require_all_safe:\n", "            if False:\n"), ['C10.R5']),
         Mutant('neutral-local-alias', lambda r: in_func(r, 'EvalContext.evaluate_node', "        evaluated_parent = None\n", "        evaluated_parent = None\n        _n = len(self._eval_stack)\n"), neutral=True),
     ]
